@@ -432,6 +432,7 @@ struct Collect {
     plain_loops: Vec<(usize, usize, usize, usize, usize, usize)>, // for_start, pat_start, pat_end, expr_start, expr_end, body_open_end
     rev_loops: Vec<(usize, usize, usize, usize, usize, usize, usize, usize, usize)>, // for_start, pat_start, pat_end, expr_end, lo_start, lo_end, hi_start, hi_end, body_open_end
     compound: Vec<(usize, usize, usize, usize, usize, String)>,
+    compound_idx: Vec<(usize, usize, usize, usize, usize, usize, String, usize, usize, usize)>, // base start/end, index start/end, rhs start/end, op path, left end, op start/end
     rename_from: String,
     rename_hits: Vec<(usize, usize, bool)>, // start, end, is_shorthand_field
 }
@@ -605,6 +606,19 @@ impl<'ast> Visit<'ast> for Collect {
             _ => None,
         };
         if let Some(p) = comp {
+            if let syn::Expr::Index(ix) = &*e.left {
+                // `a[idx] op= r`: kept apart so that the index rule can turn it into vx_set(idx, op(vx_get(idx), r))
+                let (bs, be) = br(ix.expr.span());
+                let (is_, ie) = br(ix.index.span());
+                let (rs, re) = br(e.right.span());
+                let (_, le) = br(e.left.span());
+                let (os, oe) = br(e.op.span());
+                self.compound_idx.push((bs, be, is_, ie, rs, re, p.to_string(), le, os, oe));
+                self.visit_expr(&ix.expr);
+                self.visit_expr(&ix.index);
+                self.visit_expr(&e.right);
+                return;
+            }
             let (ls, le) = br(e.left.span());
             let (os, oe) = br(e.op.span());
             let (_, re) = br(e.right.span());
@@ -957,6 +971,20 @@ fn finish(
 
     // ---- rewrite rules
     let ufcs = req["ufcs"].as_bool().unwrap_or(false);
+    {
+        // compound assignments to index expressions that are NOT under the index rule are ordinary compound assignments
+        let names: Vec<String> = req["index_rewrite"].as_array().map(|a| a.iter().filter_map(|v| v.as_str().map(norm)).collect()).unwrap_or_default();
+        let all2d = names.iter().any(|n| n == "[[*]]");
+        let mut extra = Vec::new();
+        for (bs, be, is_, ie, _rs, re, path, le, os, oe) in &col.compound_idx {
+            let base = norm(&src[*bs..*be]);
+            let idx_txt = &src[*is_..*ie];
+            if !(names.contains(&base) || (all2d && idx_txt.trim_start().starts_with('['))) {
+                extra.push((*bs, *le, *os, *oe, *re, path.clone()));
+            }
+        }
+        col.compound.extend(extra);
+    }
     if ufcs {
         for (ls, os, oe, re, path) in &col.binops {
             cx.ins(*ls, &format!("{}(", path), false);
@@ -1056,6 +1084,23 @@ fn finish(
                 cx.rep(*ie, *rs, ", ");
                 cx.ins(*re, ")", false);
                 cx.count("R2(index assignment -> vx_set)");
+            }
+        }
+        for (bs, be, is_, ie, rs, re, path, _le, _os, _oe) in &col.compound_idx {
+            let base = norm(&src[*bs..*be]);
+            let idx_txt = &src[*is_..*ie];
+            if names.contains(&base) || (all2d && idx_txt.trim_start().starts_with('[')) {
+                // a[idx] op= rhs   ->   a.vx_set(idx, Op::op((*a.vx_get(idx)), rhs))   /   a.vx_set(idx, (*a.vx_get(idx)) op (rhs))
+                cx.rep(*be, *is_, ".vx_set(");
+                if ufcs {
+                    cx.rep(*ie, *rs, &format!(", {}((*{}.vx_get({})), ", path, &src[*bs..*be], idx_txt));
+                    cx.ins(*re, "))", false);
+                } else {
+                    let op = match path.rsplit("::").next().unwrap_or("") { "add" => "+", "sub" => "-", "mul" => "*", "div" => "/", _ => "%" };
+                    cx.rep(*ie, *rs, &format!(", (*{}.vx_get({})) {} (", &src[*bs..*be], idx_txt, op));
+                    cx.ins(*re, "))", false);
+                }
+                cx.count("R2(index compound assignment -> vx_set(idx, op(vx_get(idx), rhs)))");
             }
         }
         for (bs, be, is_, we, arr) in &col.indexes {
